@@ -262,7 +262,7 @@ func (z *Reader) Read(p []byte) (n int, err error) {
 			// In the normal case we return here.
 			return n, z.err
 		}
-		if n, err := io.ReadFull(z.r, z.buf[:8]); err != nil {
+		if _, err := io.ReadFull(z.r, z.buf[:8]); err != nil {
 			z.err = noEOF(err)
 			return n, z.err
 		}
